@@ -168,7 +168,7 @@ class Driver(object):
             for o in objs:
                 self.p.stdin.write(json.dumps(o) + "\n")
             self.p.stdin.flush()
-        t = threading.Thread(target=w); t.start()
+        t = threading.Thread(target=w, daemon=True); t.start()   # daemon: a failure of the reader must not hang the process
         res = []
         for _ in objs:
             line = self.p.stdout.readline()
